@@ -24,6 +24,7 @@ import (
 // schedVec is one complete schedule of HybridConcGen.tla.
 type schedVec struct {
 	Gates []int   `json:"gates"` // LogValuer gates in the record of process i+1
+	Big   []int   `json:"big"`   // 1: the record of process i+1 has a text line longer than 16 KiB
 	Sched [][]any `json:"sched"` // [p, kind, status]; kind 1 = released by the controller, 2 = woke up on the free mutex
 	Order []int   `json:"order"` // predicted order of the records' lines
 }
@@ -49,6 +50,8 @@ func (v *schedVec) steps() ([]schedStep, error) {
 	}
 	return out, nil
 }
+
+func (v *schedVec) big(p int) bool { return p-1 < len(v.Big) && v.Big[p-1] == 1 }
 
 func schedKey(steps []schedStep) string {
 	var b strings.Builder
@@ -147,7 +150,7 @@ func isBlockingState(st string) bool {
 }
 
 // The fixed handler tree of the schedule replays: root -> A(+2) -> M(+1) ->
-// S1..S4(+1 each).  M has spare capacity behind its attributes, S1..S4 are
+// S1..S4(+1 each), and root -> T1..T5(+1 each).  M has spare capacity behind its attributes, S1..S4 are
 // siblings derived from it.
 type schedTree struct {
 	hs  map[string]slog.Handler
@@ -159,8 +162,11 @@ var schedConfigs = map[string][]string{
 	"siblings": {"S1", "S2", "S3", "S4", "S1"},
 	"chain":    {"A", "M", "S1", "root", "S2"},
 	"mixed":    {"root", "S2", "S2", "S1", "M"},
+	// as siblings, but two of the calls are given the very same record value
+	// (handlers with a single attribute: it fits the spare capacity behind the record's attributes)
+	"samerec": {"T1", "T2", "T3", "T4", "T5"},
 }
-var schedConfigOrder = []string{"shared", "siblings", "chain", "mixed"}
+var schedConfigOrder = []string{"shared", "siblings", "chain", "mixed", "samerec"}
 
 func buildSchedTree(root slog.Handler, salt uint64) *schedTree {
 	t := &schedTree{hs: map[string]slog.Handler{"root": root}, acc: map[string][]int{"root": {}}}
@@ -174,6 +180,11 @@ func buildSchedTree(root slog.Handler, salt uint64) *schedTree {
 	derive("S2", "M", 51)
 	derive("S3", "M", 61)
 	derive("S4", "M", 71)
+	derive("T1", "root", 81)
+	derive("T2", "root", 91)
+	derive("T3", "root", 101)
+	derive("T4", "root", 111)
+	derive("T5", "root", 121)
 	return t
 }
 
@@ -202,7 +213,7 @@ func runSchedule(res *vh.Result, st *schedStats, raw []byte, v *schedVec, steps 
 	root := slogutil.NewJSONHybridHandler(w, opts)
 	tree := buildSchedTree(root, salt)
 	ref := newReference(opts)
-	key := fmt.Sprintf("sched gates=%v handlers=%s schedule=[%s]", v.Gates, cfg, schedKey(steps))
+	key := fmt.Sprintf("sched gates=%v big=%v handlers=%s schedule=[%s]", v.Gates, v.Big, cfg, schedKey(steps))
 	detail := func(extra map[string]any) map[string]any {
 		d := map[string]any{"stage": "S", "schedule": json.RawMessage(raw), "config": cfg, "salt": salt, "opts": variantName(variant)}
 		for k, x := range extra {
@@ -219,19 +230,49 @@ func runSchedule(res *vh.Result, st *schedStats, raw []byte, v *schedVec, steps 
 	herr := make([]error, np+1)
 	gids := make([]uint64, np+1)
 	levels := []int{8, 0, 7, 9}
+	// In the "samerec" configuration the first two calls with the same gate
+	// layout and size share one record value (a caller fanning a record out
+	// to sibling handlers).
+	twin := make([]int, np+1)
+	if cfg == "samerec" {
+	pairs:
+		for a := 1; a <= np; a++ {
+			for b := a + 1; b <= np; b++ {
+				if v.Gates[a-1] == v.Gates[b-1] && v.big(a) == v.big(b) {
+					twin[b] = a
+					break pairs
+				}
+			}
+		}
+	}
+	recs := make([]slog.Record, np+1)
 	for p := 1; p <= np; p++ {
 		names[p] = "p" + strconv.Itoa(p)
 		hname[p] = schedConfigs[cfg][p-1]
-		lv := levels[(int(salt>>8)+p)%len(levels)]
-		var attrs []slog.Attr
-		// Records of different lengths: p1 longest.
-		attrs = append(attrs, slog.String(tag(-(p*10+1)), strings.Repeat("x", (np-p+1)*40)))
-		for g := 0; g < v.Gates[p-1]; g++ {
-			attrs = append(attrs, slog.Any(tag(-(p*10+2+g)), gateValuer{s: s, text: fmt.Sprintf("gate %d of p%d", g+1, p)}))
+		if a := twin[p]; a != 0 {
+			specs[p], recs[p], wantErr[p] = specs[a], recs[a], wantErr[a]
+		} else {
+			lv := levels[(int(salt>>8)+p)%len(levels)]
+			var attrs []slog.Attr
+			// Records of different lengths: p1 longest.
+			first := strings.Repeat("x", (np-p+1)*40)
+			if v.big(p) {
+				first = bigValue([]int{4, 5, 3, 4, 2, 5, 4, 3, 5, 4, 6}[(int(salt>>16)+p)%11], first)
+			}
+			attrs = append(attrs, slog.String(tag(-(p*10+1)), first))
+			for g := 0; g < v.Gates[p-1]; g++ {
+				attrs = append(attrs, slog.Any(tag(-(p*10+2+g)), gateValuer{s: s, text: fmt.Sprintf("gate %d of p%d", g+1, p)}))
+			}
+			// Eight attributes added by three calls: five are kept in the
+			// record value, the slice of the other three has spare capacity.
+			for i := len(attrs); i < 8; i++ {
+				attrs = append(attrs, concretise([]int{-(p*10 + i + 1)}, salt, plainGens)...)
+			}
+			specs[p] = recordSpec{level: slog.Level(lv), msg: messages[(int(salt>>12)+p)%len(messages)], zeroT: p%2 == 0,
+				attrs: attrs, calls: []int{6, 1, 1}}
+			recs[p] = specs[p].build(nil)
+			wantErr[p] = lv >= 8
 		}
-		attrs = append(attrs, concretise([]int{-(p*10 + 9)}, salt, plainGens)...)
-		specs[p] = recordSpec{level: slog.Level(lv), msg: messages[(int(salt>>12)+p)%len(messages)], zeroT: p%2 == 0, attrs: attrs}
-		wantErr[p] = lv >= 8
 		m, rerr := ref.line(specs[p], concretise(tree.acc[hname[p]], salt, plainGens))
 		if rerr != nil {
 			return out, rerr
@@ -241,7 +282,7 @@ func runSchedule(res *vh.Result, st *schedStats, raw []byte, v *schedVec, steps 
 	for p := 1; p <= np; p++ {
 		p := p
 		h := tree.hs[hname[p]]
-		rec := specs[p].build(nil)
+		rec := recs[p]
 		s.Go(names[p], func() {
 			gids[p] = curGID()
 			herr[p] = h.Handle(ctx, rec)
@@ -373,9 +414,9 @@ func runSchedule(res *vh.Result, st *schedStats, raw []byte, v *schedVec, steps 
 	d := func(extra map[string]any) map[string]any {
 		var all []string
 		for _, c := range w.chunks {
-			all = append(all, string(c))
+			all = append(all, clipStr(string(c)))
 		}
-		e := map[string]any{"write_calls": all, "diverged": diverged, "expected_messages": wantMsg[1:], "handlers": hname[1:]}
+		e := map[string]any{"write_calls": all, "diverged": diverged, "expected_messages": clipAll(wantMsg[1:]), "handlers": hname[1:]}
 		for k, x := range extra {
 			e[k] = x
 		}
@@ -406,9 +447,8 @@ func runSchedule(res *vh.Result, st *schedStats, raw []byte, v *schedVec, steps 
 		who := 0
 		if problem == "" {
 			for p := 1; p <= np; p++ {
-				if msg == wantMsg[p] && sev == severityName(wantErr[p]) {
+				if msg == wantMsg[p] && sev == severityName(wantErr[p]) && (who == 0 || count[p] < count[who]) {
 					who = p
-					break
 				}
 			}
 			if who == 0 {
@@ -416,7 +456,7 @@ func runSchedule(res *vh.Result, st *schedStats, raw []byte, v *schedVec, steps 
 			}
 		}
 		if problem != "" {
-			res.Mismatch(key+" line", fmt.Sprintf("output line %d: %s", li+1, problem), d(map[string]any{"line": string(ln)}))
+			res.Mismatch(key+" line", fmt.Sprintf("output line %d: %s", li+1, problem), d(map[string]any{"line": clipStr(string(ln))}))
 			continue
 		}
 		count[who]++
@@ -568,4 +608,12 @@ func replaySched(args []string) error {
 		"runs_with_other_than_one_write_per_record": st.extraWrites, "partial_line_writes": st.partialWrites,
 		"hangs": hangs, "stopped_after_hangs": bit(hangs >= 2),
 	})
+}
+
+func clipAll(ss []string) []string {
+	out := make([]string, len(ss))
+	for i, x := range ss {
+		out[i] = clipStr(x)
+	}
+	return out
 }
